@@ -199,7 +199,7 @@ pub fn gens() -> Vec<Gen> {
     vec![c02::K_GI, c02::K_MC, c02::K_GA, c02::K_GN, c02::K_CP, c02::K_CM, c02::K_LB, c02::K_LEN, c02::K_CONCRETE, G_TYPE, G_AUTHDATA, G_INTS]
 }
 
-pub const RULE: &str = "(i) every response body produced by the C02 generators (all kinds; every presence subset / all member pairs); (ii) every stand-alone serialisable type (options, certifications, extensions, entities, descriptors, parameters, packed attestation statement, COSE keys, hmac-secret input, ClientPin/CredentialManagement/LargeBlobs requests, response structs) with every subset (<= 8 optional members) or none/singletons/all pairs/full of its optional members, constructed through the public API (or obtained by decoding for decode-only-constructible requests) and encoded with cbor_serialize; (iii) the extension map at the tail of AuthenticatorData::serialize for both flavours and all subsets; (iv) integers at every head-width threshold through each integer-typed member; (v) every length 0..=max of every freely sizeable byte/text member of the all-members response of every kind (string heads at every width change), through Response::serialize. Oracle: the independent validator check_canonical (one item, no trailing bytes, definite lengths, shortest heads, no tags/floats/undefined/simple, no duplicate keys, keys in CTAP2 canonical order, at every depth). Non-trivial: a map with >= 2 entries at some level or an output longer than a one-byte head; distinct by output bytes.";
+pub const RULE: &str = "(i) every response body produced by the C02 generators (all kinds; every presence subset / all member pairs); (ii) every stand-alone serialisable type (options, certifications, extensions, entities, descriptors, parameters, packed attestation statement, COSE keys, hmac-secret input, ClientPin/CredentialManagement/LargeBlobs requests, response structs) with every subset (<= 8 optional members) or none/singletons/all pairs/full of its optional members, constructed through the public API (or obtained by decoding for decode-only-constructible requests) and encoded with cbor_serialize; (iii) the extension map at the tail of AuthenticatorData::serialize for both flavours and all subsets; (iv) integers at every head-width threshold through each integer-typed member; (v) every length 0..=max of every freely sizeable byte/text member of the all-members response of every kind (string heads at every width change), through Response::serialize; (vi) every response of (i) additionally serialised into a buffer that already holds the same message (reuse without clearing) and into one pre-filled with sentinel bytes: what follows the status byte must again be one canonical item. Oracle: the independent validator check_canonical (one item, no trailing bytes, definite lengths, shortest heads, no tags/floats/undefined/simple, no duplicate keys, keys in CTAP2 canonical order, at every depth). Non-trivial: a map with >= 2 entries at some level or an output longer than a one-byte head; distinct by output bytes.";
 pub const ASSUMPTIONS: &[&str] = &[
     "check_canonical implements RFC 8949 + CTAP2 canonical rules correctly (guarded by `ctv selftest` positive and negative vectors)",
     "pairs suffice for key order because emission order is declaration order for every subset",
